@@ -7,6 +7,8 @@ from vlib import *
 PROFILE_SPEC = {
     'dec-whole': 'TraceDec', 'dec-cutsets': 'TraceDec', 'dec-random': 'TraceDec', 'dec-bom': 'TraceDec',
     'dec-replay': 'TraceDec', 'dec-deep': 'TraceDec',
+    'mem': 'TraceMem',
+    'labels': 'TraceMisc', 'oneshot': 'TraceMisc', 'meta': 'TraceMisc', 'forbom': 'TraceMisc',
     'enc-sweep': 'TraceEnc', 'enc-pairs': 'TraceEnc', 'enc-cutsets': 'TraceEnc', 'enc-random': 'TraceEnc', 'enc-replay': 'TraceEnc',
 }
 
@@ -24,8 +26,23 @@ def record_and_validate(rep, binp, profile, seed, tier, extra=(), shards=None, b
     return results
 
 
-def dev(profile, spec, extra, seed, tier):
+def devmc(argv):
+    """./check devmc Enc Mode Sink Repl MaxPend caps(csv) alphabet(csv)"""
     binp = build_harness('default')
+    rep = Report('DEVMC', 'quick', 1)
+    consts = dict(EncName=argv[0], ModeName=argv[1], SinkName=argv[2], Repl=argv[3] == 'true', MaxPend=int(argv[4]),
+                  Caps=[int(x) for x in argv[5].split(',')], Alphabet=[int(x, 0) for x in argv[6].split(',')])
+    mc_and_replay(rep, binp, 'MC_Dec', consts, 'dev')
+    print(json.dumps(rep.cov['mc_runs'], indent=1)[:3000])
+    for v in rep.violations:
+        print('VIOLATION', v)
+    for n in rep.notes:
+        print('NOTE', n[:1500])
+    return 0
+
+
+def dev(profile, spec, extra, seed, tier):
+    binp = build_harness(os.environ.get('VERIF_BUILD', 'default'))
     rep = Report('DEV', tier, seed)
     outdir = '%s/dev/%s' % (RUN, profile)
     clean_dir(outdir)
@@ -86,7 +103,7 @@ COMMON_ASSUMPTIONS = [
 ]
 
 
-def rv(rep, binp, profile, seed, tier, extra=(), tag=None, shards=None):
+def rv(rep, binp, profile, seed, tier, extra=(), tag=None, shards=None, build='default'):
     """record profile (with overrides) into its own directory and validate"""
     outdir = '%s/%s/%s' % (RUN, rep.prop, tag or profile)
     clean_dir(outdir)
@@ -98,6 +115,73 @@ def rv(rep, binp, profile, seed, tier, extra=(), tag=None, shards=None):
         rep.sample_from(st['files'][len(st['files']) // 2], n=1)
     handle_trace_violations(rep, results)
     return results
+
+
+def mc_and_replay(rep, binp, module, consts, what, kind='dec', workers=4):
+    """TLC exhaustive on Layer I x monitor (design-level result), then spec -> impl: one exported behaviour per distinct
+    reachable state is re-driven on the real code, validated by the monitor (violations are fatal) and compared call by
+    call with the model's prediction (differences are MODEL-DRIFT notes, never alarms)."""
+    r = mc_run(module, consts, export=True)
+    rep.add_mc(r['name'], r, what)
+    run = rep.cov['mc_runs'][-1]
+    run['consts'] = {k: (sorted(v) if isinstance(v, (list, set)) else v) for k, v in consts.items()}
+    if r.get('violated') or not r.get('completed'):
+        run['model_violation'] = True
+        rep.notes.append('MODEL-ALARM %s: TLC reports a violation or did not complete on the implementation-shaped model: %s'
+                         % (r['name'], (r.get('error_text') or '')[:1500]))
+        log('MODEL-ALARM', r['name'], (r.get('error_text') or '')[:600])
+    hists = r.get('hists', [])
+    if not hists:
+        return r
+    outdir = '%s/%s/mcreplay_%s' % (RUN, rep.prop, r['name'])
+    clean_dir(outdir)
+    planfile = outdir + '/plans.ndjson'
+    with open(planfile, 'w') as f:
+        for i, h in enumerate(hists):
+            new = dict(h['new'])
+            new['h'] = i + 1
+            plan = history_to_plan([json.dumps(new)] + [json.dumps(c) for c in h['calls']])
+            f.write(json.dumps(plan) + '\n')
+    st = run_profile(binp, kind + '-replay', outdir, 1, 'quick', shards=1, extra=['--in', planfile])
+    results = validate_traces(PROFILE_SPEC[kind + '-replay'], st['files'])
+    rep.add_trace_results('replay of %d TLC-exported behaviours of %s' % (len(hists), r['name']), PROFILE_SPEC[kind + '-replay'], results, st)
+    handle_trace_violations(rep, results)
+    # prediction vs reality
+    real = {}
+    cur = None
+    for line in open(st['files'][0]):
+        e = json.loads(line)
+        if e['ev'] in ('N', 'NE'):
+            cur = e['h']
+            real[cur] = []
+        elif e['ev'] in ('D', 'E') and cur is not None:
+            real[cur].append(e)
+    keys = ('res', 'ml', 'ma', 'read', 'written', 'out', 'had', 'enc') if kind == 'dec' else ('res', 'um', 'read', 'written', 'out', 'had', 'pending')
+    drift = 0
+    first = None
+    ncalls = 0
+    for i, h in enumerate(hists):
+        rc = real.get(i + 1, [])
+        for j, c in enumerate(h['calls']):
+            ncalls += 1
+            if j >= len(rc):
+                break
+            if any(c.get(k) != rc[j].get(k) for k in keys):
+                drift += 1
+                if first is None:
+                    first = {'history': i + 1, 'call': j, 'predicted': {k: c.get(k) for k in keys + ('src', 'cap', 'last')},
+                             'real': {k: rc[j].get(k) for k in keys + ('src', 'cap', 'last')}}
+                break
+    run['replayed_histories'] = len(hists)
+    run['replayed_calls'] = ncalls
+    run['model_drift_histories'] = drift
+    run['model_conformant'] = drift == 0
+    if first:
+        run['first_drift'] = first
+        log('MODEL-DRIFT %s: %d of %d replayed behaviours differ from the prediction, first: %s' % (r['name'], drift, len(hists), json.dumps(first)[:700]))
+    if hists:
+        rep.cov['samples'].append({'tlc_exported_behaviour': hists[len(hists) // 2]})
+    return r
 
 
 def plan_C01(rep, seed, tier):
@@ -138,6 +222,10 @@ def plan_C05(rep, seed, tier):
     binp = build_harness('default')
     rv(rep, binp, 'dec-cutsets', seed, tier, extra=['--sinks', 'str,string'], tag='dec-cutsets-str')
     rv(rep, binp, 'dec-random', seed, tier, extra=['--sinks', 'str,string,utf8,utf16'], tag='dec-random-allsinks')
+    rv(rep, binp, 'mem', seed, tier, shards=32, extra=['--which', 'c05', '--thin', '2'] if tier == 'quick' else ['--which', 'c05'], tag='mem-str')
+    simd = build_harness('simd')
+    rv(rep, simd, 'mem', seed, tier, shards=32, extra=['--which', 'c05', '--thin', '3'] if tier == 'quick' else ['--which', 'c05'], tag='mem-str-simd', build='simd')
+    rv(rep, simd, 'dec-cutsets', seed, tier, extra=['--sinks', 'str,string', '--thin', '4' if tier == 'quick' else '1'], tag='dec-cutsets-str-simd', build='simd')
     rep.cov['rule'] = ('decode_to_str* / decode_to_string* on all cut sets of short class-alphabet streams: destination pre-filled with valid text of 1..4-byte '
                        'characters, whole destination validated after every call (also after the panic of a reused finished decoder); written prefix validated on every call of every sink')
 
@@ -154,11 +242,15 @@ def plan_C06(rep, seed, tier):
 
 def plan_C07(rep, seed, tier):
     binp = build_harness('default')
-    rv(rep, binp, 'dec-cutsets', seed, tier, extra=['--cap', 'query', '--sinks', 'utf8,utf16'], tag='dec-cutsets-query')
-    rv(rep, binp, 'dec-bom', seed, tier, extra=['--cap', 'query', '--thin', '4' if tier == 'quick' else '1'], tag='dec-bom-query')
-    rv(rep, binp, 'enc-cutsets', seed, tier, extra=['--cap', 'query'], tag='enc-cutsets-query')
-    rep.cov['rule'] = ('every call of the cut-set / BOM-matrix histories is issued with dst.len() == the value the matching max_*_buffer_length query returns on '
-                       'the same converter in its current state for the number of units passed; OutputFull is a violation')
+    rv(rep, binp, 'dec-cutsets', seed, tier, extra=['--cap', 'query', '--sinks', 'utf8,utf16', '--thin', '2' if tier == 'quick' else '1'], tag='dec-cutsets-query')
+    rv(rep, binp, 'dec-cutsets', seed, tier, extra=['--cap', 'mixq', '--sinks', 'utf8,utf16', '--thin', '2' if tier == 'quick' else '1'], tag='dec-cutsets-mixq')
+    rv(rep, binp, 'dec-bom', seed, tier, extra=['--cap', 'query', '--thin', '8' if tier == 'quick' else '2'], tag='dec-bom-query')
+    rv(rep, binp, 'dec-bom', seed, tier, extra=['--cap', 'mixq', '--thin', '4' if tier == 'quick' else '1'], tag='dec-bom-mixq')
+    rv(rep, binp, 'enc-cutsets', seed, tier, extra=['--cap', 'query', '--thin', '2' if tier == 'quick' else '1'], tag='enc-cutsets-query')
+    rv(rep, binp, 'enc-cutsets', seed, tier, extra=['--cap', 'mixq', '--thin', '2' if tier == 'quick' else '1'], tag='enc-cutsets-mixq')
+    rep.cov['rule'] = ('calls of the cut-set / BOM-matrix histories are issued with dst.len() == the value the matching max_*_buffer_length query returns on '
+                       'the same converter in its current state for the number of units passed (every call, or alternating with small capacities 0..min+1 so that '
+                       'states behind an OutputFull - pending BB, half-read escapes, pending leads - are reached); OutputFull on a queried call is a violation')
 
 
 def plan_C08(rep, seed, tier):
@@ -184,7 +276,8 @@ def plan_C09(rep, seed, tier):
 
 def plan_C10(rep, seed, tier):
     binp = build_harness('default')
-    rv(rep, binp, 'dec-bom', seed, tier, shards=32, extra=['--thin', '2'] if tier == 'quick' else [])
+    rv(rep, binp, 'dec-bom', seed, tier, shards=32)
+    rv(rep, binp, 'forbom', seed, tier, shards=4)
     rep.cov['rule'] = ('40 nominal encodings x 3 BOM modes x every prefix of length 0..3 over {EF,BB,BF,FE,FF,41,80} x 5 tails x all cut sets of the first 4 bytes '
                        'x capacities min..min+2 and 64 x both raw sinks x replacement x empty final call')
 
@@ -215,9 +308,145 @@ def plan_C19(rep, seed, tier):
                        'judged against the Standard decoder state at the consumed position; twins without the queries must produce identical results')
 
 
+def plan_C11(rep, seed, tier):
+    binp = build_harness('default')
+    rv(rep, binp, 'oneshot', seed, tier, shards=32)
+    rep.cov['rule'] = ('Encoding::decode / decode_with_bom_removal / decode_without_bom_handling / ..._and_without_replacement / encode for all 40 encodings: '
+                       'ASCII run of every length 0..130 (and 191..193, 255..257, 1000, 4095..4097) followed by class-alphabet tails and BOM look-alikes; '
+                       'text, encoding used, error flag, None-iff-malformed, borrow promise and aliasing judged by the spec; streaming twin compared')
+
+
+def plan_C13(rep, seed, tier):
+    binp = build_harness('default')
+    rv(rep, binp, 'labels', seed, tier, shards=32, extra=['--data', SPEC + '/data'])
+    rep.cov['rule'] = ('for_label / for_label_no_replacement on: all 228 labels, all names, all case masks (<= 7 letters; 12 in thorough), whitespace/odd-byte paddings, '
+                       'over-long and internally modified labels, strings around the 19-byte cut-off, seeded random strings, two-edit mutants; '
+                       'single-edit neighbourhood of labels (seed-chosen tenth in quick, all 228 in thorough) by set equality with the spec')
+
+
+def plan_C14(rep, seed, tier):
+    binp = build_harness('default')
+    rv(rep, binp, 'mem', seed, tier, shards=32, extra=['--which', 'c14'])
+    hooks = build_harness('hooks')
+    rv(rep, hooks, 'mem', seed, tier, shards=32, extra=['--which', 'c14', '--force-scalar'], tag='mem-c14-forced-scalar', build='hooks')
+    simd = build_harness('simd')
+    rv(rep, simd, 'mem', seed, tier, shards=32, extra=['--which', 'c14'], tag='mem-c14-simd', build='simd')
+    rep.cov['rule'] = ('validators on recipe inputs: 7 fill patterns x lengths (0..34 and stride edges up to 160; all 0..160 in thorough) x one defect of 26 classes at '
+                       'structured positions (every position in thorough) + seeded second defect; each call repeated at 16 start alignments (all must agree)')
+
+
+def plan_C15(rep, seed, tier):
+    binp = build_harness('default')
+    rv(rep, binp, 'mem', seed, tier, shards=32, extra=['--which', 'c15', '--thin', '2'] if tier == 'quick' else ['--which', 'c15'])
+    simd = build_harness('simd')
+    rv(rep, simd, 'mem', seed, tier, shards=32, extra=['--which', 'c15', '--thin', '3'] if tier == 'quick' else ['--which', 'c15'], tag='mem-c15-simd', build='simd')
+    rep.cov['rule'] = ('every convert_* / copy_* / ensure_* / decode_latin1 / encode_latin1_lossy on the recipe inputs of C14; partial forms with destination lengths '
+                       '0..5, 7, 8, 15..17, full-3..full+1 and seeded ones; exact output, maximal whole-character read/written, unmodified-beyond-written where documented')
+
+
+def plan_C16(rep, seed, tier):
+    binp = build_harness('default')
+    rv(rep, binp, 'mem', seed, tier, shards=32, extra=['--which', 'c16'])
+    simd = build_harness('simd')
+    rv(rep, simd, 'mem', seed, tier, shards=32, extra=['--which', 'c16'], tag='mem-c16-simd', build='simd')
+    rep.cov['exhaustive'] = True
+    rep.cov['rule'] = ('is_* / check_*_for_latin1_and_bidi on the recipe inputs (bidi, Latin1 and non-Latin1 fillers, defects incl. RTL characters and invalid UTF-8); '
+                       'is_char_bidi over all 1,114,112 values and is_utf16_code_unit_bidi over all 65,536 code units as exact range lists')
+
+
+def plan_C20(rep, seed, tier):
+    binp = build_harness('default')
+    rv(rep, binp, 'meta', seed, tier, shards=8)
+    rep.cov['exhaustive'] = True
+    rep.cov['rule'] = ('for each of the 40 encodings: flags vs truth computed by TLC from Layer S, vs facts measured by exhaustive sweeps of the same build '
+                       '(all 1-/2-byte strings + ISO-2022-JP escapes through the decoder, all 1,112,064 scalars through the encoder); 40x40 equality and hash matrices; name() -> for_label')
+
+
+BEYOND_RE = __import__('re').compile(r'"beyond":(true|false),"post":\[[^\]]*\],')
+
+
+def plan_C17(rep, seed, tier):
+    """the same harness, seed and deterministic corpus linked against each build configuration; one lockstep event per case
+    (history / aggregate) carrying the digest of each build's complete observation; TLC judges equality"""
+    import hashlib
+    builds = [('default', []), ('lessslow', []), ('fastlegacy', []), ('simd', []), ('hooks', ['--force-scalar'])]
+    thin = '4' if tier == 'quick' else '1'
+    corpus = [('enc-sweep', []), ('enc-pairs', ['--thin', thin]), ('dec-whole', ['--thin', thin]), ('dec-random', []), ('enc-random', []),
+              ('dec-cutsets', ['--thin', thin]), ('enc-cutsets', ['--thin', thin]), ('mem', ['--which', 'all', '--thin', thin]), ('oneshot', ['--thin', thin])]
+    per_build = {}
+    for kind, bextra in builds:
+        binp = build_harness(kind)
+        cases = {}
+        for profile, extra in corpus:
+            outdir = '%s/%s/%s/%s' % (RUN, rep.prop, kind, profile)
+            clean_dir(outdir)
+            st = run_profile(binp, profile, outdir, seed, tier, shards=8, extra=list(extra) + bextra)
+            for fpath in st['files']:
+                key = None
+                hsh = None
+                with open(fpath) as f:
+                    for line in f:
+                        if '"h":' in line[:24]:
+                            if key is not None:
+                                cases[key] = hsh.hexdigest()[:20]
+                            hid = line[line.index('"h":') + 4:].split(',')[0]
+                            key = '%s/%s/%s' % (profile, os.path.basename(fpath), hid)
+                            hsh = hashlib.sha1()
+                        if hsh is not None:
+                            if line.startswith('{"ev":"M"'):
+                                # bytes beyond `written` are not a logical result (C17 statement): not part of the observation
+                                line = BEYOND_RE.sub('', line)
+                            hsh.update(line.encode())
+                if key is not None:
+                    cases[key] = hsh.hexdigest()[:20]
+        per_build[kind] = cases
+        log('C17 build %s: %d cases' % (kind, len(cases)))
+    # merge into lockstep events
+    outdir = '%s/%s/lockstep' % (RUN, rep.prop)
+    clean_dir(outdir)
+    keys = sorted(per_build['default'])
+    nsh = 16
+    files = [open('%s/lock_%03d.ndjson' % (outdir, i), 'w') for i in range(nsh)]
+    for i, k in enumerate(keys):
+        obs = [per_build[b].get(k, 'missing') for b, _ in builds]
+        files[i % nsh].write(json.dumps({'ev': 'LK', 'h': i + 1, 'case': k, 'obs': obs}, separators=(',', ':')) + '\n')
+    extra_cases = sum(1 for b, _ in builds for k in per_build[b] if k not in per_build['default'])
+    for f in files:
+        f.close()
+    paths = ['%s/lock_%03d.ndjson' % (outdir, i) for i in range(nsh)]
+    paths = [p_ for p_ in paths if os.path.getsize(p_) > 0]
+    results = validate_traces('TraceLock', paths)
+    rep.add_trace_results('lockstep over builds %s' % ','.join(b for b, _ in builds), 'TraceLock', results, {'wall_s': None})
+    rep.cov['lockstep_cases'] = len(keys)
+    rep.cov['builds'] = [b for b, _ in builds]
+    rep.sample_from(paths[0], n=2)
+    if extra_cases:
+        raise ToolError('C17: %d cases exist in some build but not in the default build (harness not deterministic?)' % extra_cases)
+    # violations: write the differing case of every build into the replay file
+    os.makedirs(RUN + '/replay', exist_ok=True)
+    for r in results:
+        for v in r.get('viol', []):
+            evs = extract_history(r['file'], v['h'])
+            case = json.loads(evs[0])['case'] if evs else '?'
+            profile, fname, hid = case.split('/')
+            path = '%s/replay/C17_%s.ndjson' % (RUN, case.replace('/', '_'))
+            with open(path, 'w') as out:
+                out.write(evs[0] + '\n' if evs else '')
+                for b, _ in builds:
+                    src = '%s/%s/%s/%s/%s' % (RUN, rep.prop, b, profile, fname)
+                    for l in extract_history(src, int(hid))[:40]:
+                        out.write(json.dumps({'build': b, 'line': json.loads(l)}) + '\n')
+            if len(rep.violations) < 20:
+                rep.violations.append(('C17', v['tag'], path))
+    rep.cov['rule'] = ('builds {default, less-slow-kanji+big5+gb, fast-legacy-encode, simd-accel+std (nightly), verif switch forcing scalar UTF-8 validation} x '
+                       'deterministic corpus: every scalar through every encoder from both sources (astral stride 16 in quick), ordered pairs, whole-stream decodes incl. all 2-byte strings, '
+                       'seeded decoder/encoder histories, cut sets, mem/validator recipes, one-shot API; one lockstep case per history/aggregate')
+
+
 PLANS = {
     'C01': plan_C01, 'C02': plan_C02, 'C03': plan_C03, 'C04': plan_C04, 'C05': plan_C05, 'C06': plan_C06, 'C07': plan_C07,
     'C08': plan_C08, 'C09': plan_C09, 'C10': plan_C10, 'C12': plan_C12, 'C18': plan_C18, 'C19': plan_C19,
+    'C17': plan_C17, 'C11': plan_C11, 'C13': plan_C13, 'C14': plan_C14, 'C15': plan_C15, 'C16': plan_C16, 'C20': plan_C20,
 }
 
 
